@@ -3,9 +3,9 @@ CONSTANTS
   Names = {"x", "y"}
   Types = {"string", "bytes", "u64"}
   Handles = {1, 2, 3, 4}
-  Keys = {1, 2}
+  Keys = {1}
   Vals = {1, 2}
-  MaxInst = 4
+  MaxInst = 3
   SigOf <- MC_SigDistinct
   AlwaysLookup = TRUE
 INVARIANTS OneInstance Aliasing TypeSafe FlushDurable Registered
